@@ -511,6 +511,112 @@ example : expand (ν := Nat) none (some [2, 3]) [(500, none), (600, some 9)] =
     [⟨500, none, some 2, none⟩, ⟨500, none, some 3, none⟩, ⟨600, some 9, some 2, none⟩, ⟨600, some 9, some 3, none⟩] ∧
     expand (ν := Nat) none none [(500, none)] = [⟨500, none, none, none⟩] := by decide
 
+/-! ## pinned behaviour on malformed input (lead's decision: kept, documented as theorems) -/
+
+theorem lastSome_append {α β : Type} (f : α → Option β) (l1 l2 : List α) :
+    lastSome f (l1 ++ l2) = (lastSome f l2).orElse fun _ => lastSome f l1 := by
+  induction l1 with
+  | nil => cases h : lastSome f l2 <;> simp [h, lastSome, Option.orElse]
+  | cons a l1 ih =>
+    simp only [List.cons_append, lastSome, ih]
+    cases lastSome f l2 <;> simp [Option.orElse]
+
+theorem lastSome_insert_none {α β : Type} (f : α → Option β) (l1 l2 : List α) (a : α) (h : f a = none) :
+    lastSome f (l1 ++ a :: l2) = lastSome f (l1 ++ l2) := by
+  rw [lastSome_append, lastSome_append, lastSome_cons_none f a l2 h]
+
+theorem filterMap_insert_none {α β : Type} (f : α → Option β) (l1 l2 : List α) (a : α) (h : f a = none) :
+    (l1 ++ a :: l2).filterMap f = (l1 ++ l2).filterMap f := by
+  rw [List.filterMap_append, List.filterMap_append, List.filterMap_cons_none h]
+
+/-- a `BEGIN IONS` line anywhere inside a block means nothing -/
+theorem denoteSpec_begin_inside (d : Defaults ν) (b1 b2 : List (Line ν)) :
+    denoteSpec d (b1 ++ .beginIons :: b2) = denoteSpec d (b1 ++ b2) := by
+  unfold denoteSpec
+  rw [lastSome_insert_none Line.title? _ _ _ rfl, lastSome_insert_none Line.tol? _ _ _ rfl,
+    lastSome_insert_none Line.tolu? _ _ _ rfl, lastSome_insert_none Line.charge? _ _ _ rfl,
+    lastSome_insert_none Line.rt? _ _ _ rfl, filterMap_insert_none Line.prec? _ _ _ rfl,
+    filterMap_insert_none Line.peakMz? _ _ _ rfl, filterMap_insert_none Line.peakInt? _ _ _ rfl]
+
+/-- **C17.charge_without_digit_drops_block** — a CHARGE line without any ASCII digit (`CHARGE=`, `CHARGE=unknown`,
+`CHARGE=Mr`) is the explicitly empty charge list `.charge []` (`classify_charge_no_digit`). (1) A block whose
+last CHARGE line is such a line gets zero precursors and is dropped, whatever else it contains and whatever
+the header says. (2) If the header's last CHARGE line is such a line, every block without a CHARGE line of its
+own is dropped. (3) Hence a whole document under such a header yields only the blocks that override CHARGE. -/
+theorem charge_without_digit_drops_block (d : Defaults ν) (b : List (Line ν)) (h : List (Line ν))
+    (blocks : List (List (Line ν))) :
+    (lastSome Line.charge? b = some [] → denoteSpec d b = none) ∧
+    (lastSome Line.charge? b = none → d.charges = some [] → denoteSpec d b = none) ∧
+    ((∀ l ∈ h, l ≠ .beginIons) → (∀ b ∈ blocks, ∀ l ∈ b, l ≠ .endIons) → lastSome Line.charge? h = some [] →
+      parseLines (render h blocks) =
+        (blocks.filter fun b => (lastSome Line.charge? b).isSome).filterMap (denoteSpec (defaultsSpec h))) := by
+  have key : ∀ (d : Defaults ν) (b : List (Line ν)),
+      ((lastSome Line.charge? b).orElse fun _ => d.charges) = some [] → denoteSpec d b = none := by
+    intro d b hc
+    cases hd : denoteSpec d b with
+    | none => rfl
+    | some sp =>
+      have hx := (emitted_iff d b).1 (by rw [hd]; rfl)
+      exact absurd hc hx.2.2.1
+  refine ⟨fun h1 => key d b (by rw [h1]; rfl), fun h1 h2 => key d b (by rw [h1]; exact h2), ?_⟩
+  intro hh hb hc
+  rw [block_denotation h blocks hh hb]
+  clear hb
+  induction blocks with
+  | nil => rfl
+  | cons b bs ih =>
+    cases hown : lastSome Line.charge? b with
+    | none =>
+      have : denoteSpec (defaultsSpec h) b = none := key _ b (by rw [hown]; exact hc)
+      simp only [List.filterMap_cons, this, List.filter_cons, hown, Option.isSome_none, Bool.false_eq_true,
+        if_false, ih]
+    | some cs =>
+      simp only [List.filterMap_cons, List.filter_cons, hown, Option.isSome_some, if_true, ih]
+
+example : denoteSpec (defaultsSpec exH) (exA ++ [.charge []]) = none ∧
+    -- header `CHARGE=` : only the block with its own CHARGE line (exB) survives
+    parseLines (render [.charge [2], .charge []] [exA, exB, exC]) =
+      [{ spB with precs := [⟨600, some 9, some 4, none⟩] }] ∧
+    parseLines (render [.charge [2]] [exA, exB, exC]) ≠ [{ spB with precs := [⟨600, some 9, some 4, none⟩] }] := by
+  decide
+
+/-- **C17.missing_end_merges_blocks** — `BEGIN IONS` is ignored after the first one, so when the `END IONS` between two
+blocks `b1`, `b2` is missing, the document reads as if the two were ONE block `b1 ++ b2` (blocks before and
+after are unaffected); the merged block has the later title (`b2`'s if it has one), the precursors of both
+and the peaks of both, in order. -/
+theorem missing_end_merges_blocks (h : List (Line ν)) (pre post : List (List (Line ν))) (b1 b2 : List (Line ν))
+    (hh : ∀ l ∈ h, l ≠ .beginIons) (hb : ∀ b ∈ pre ++ (b1 ++ b2) :: post, ∀ l ∈ b, l ≠ .endIons) :
+    parseLines (render h (pre ++ (b1 ++ .beginIons :: b2) :: post)) =
+      parseLines (render h (pre ++ (b1 ++ b2) :: post)) ∧
+    lastSome Line.title? (b1 ++ b2) = (lastSome Line.title? b2).orElse (fun _ => lastSome Line.title? b1) ∧
+    (b1 ++ b2).filterMap Line.prec? = b1.filterMap Line.prec? ++ b2.filterMap Line.prec? ∧
+    (b1 ++ b2).filterMap Line.peakMz? = b1.filterMap Line.peakMz? ++ b2.filterMap Line.peakMz? ∧
+    (b1 ++ b2).filterMap Line.peakInt? = b1.filterMap Line.peakInt? ++ b2.filterMap Line.peakInt? := by
+  refine ⟨?_, lastSome_append _ _ _, List.filterMap_append, List.filterMap_append, List.filterMap_append⟩
+  have hb' : ∀ b ∈ pre ++ (b1 ++ .beginIons :: b2) :: post, ∀ l ∈ b, l ≠ Line.endIons := by
+    intro b hbm l hl
+    rcases List.mem_append.1 hbm with hbm | hbm
+    · exact hb b (List.mem_append_left _ hbm) l hl
+    · rcases List.mem_cons.1 hbm with rfl | hbm
+      · rcases List.mem_append.1 hl with hl | hl
+        · exact hb (b1 ++ b2) (by simp) l (List.mem_append_left _ hl)
+        · rcases List.mem_cons.1 hl with rfl | hl
+          · intro hx; cases hx
+          · exact hb (b1 ++ b2) (by simp) l (List.mem_append_right _ hl)
+      · exact hb b (List.mem_append_right _ (List.mem_cons_of_mem _ hbm)) l hl
+  rw [block_denotation h _ hh hb', block_denotation h _ hh hb]
+  simp only [List.filterMap_append, List.filterMap_cons, denoteSpec_begin_inside]
+
+/-- the pinned corpus case `observation-missing-end-ions-merges-blocks.req`: block `a` lost its `END IONS` -/
+example :
+    let a : List (Line Nat) := [.title "a", .pepmass (.ok 5) .absent, .peak (.ok 100) (.ok 1)]
+    let b : List (Line Nat) := [.title "b", .pepmass (.ok 500) .absent, .peak (.ok 101) (.ok 2)]
+    parseLines (render [] [a ++ .beginIons :: b]) =
+      [{ id := "b", rt := 0, tic := 3, mzs := [100, 101], ints := [1, 2],
+         precs := [⟨5, none, none, none⟩, ⟨500, none, none, none⟩] }] ∧
+    (parseLines (render [] [a, b])).map (·.id) = ["a", "b"] := by
+  decide
+
 /-! ## text level -/
 
 /-- the text of a document given line by line: every line terminated by `\n` -/
